@@ -7,12 +7,12 @@ CHECKS = {
   'level': 'model_checking',
   'explanation': 'RemoveUnreachableStates, RemoveUselessStates and IsLangEmpty executed symbolically on every automaton whose rules are drawn from the rule universe of the configuration (presence bit per rule, finality bit per state); results decoded by iterating the returned automaton and compared with naive fixpoint oracles (productive / reachable / useful masks computed on the input - the result is a sub-automaton of the reachable resp. useful part - and on the result itself - every state that occurs in it is reachable from one of its final states resp. every state and rule takes part in one of its accepting runs; macro-state language inclusion in both directions).',
   'bounds': {'quick': 'automata over <=3 states with symbols of rank <=2; universes: 2 states x {a/0,f/1}, 2 x {a/0,f/1,g/2}, 2 x {a/0,b/0,g/2} (two leaf rules of one state), 3 x {a/0,f/1}; all subsets of rules and final states (8..16 free bits per query)',
-             'thorough': 'as quick plus 2 x {a/0,b/0,f/1,g/2} and 3-state universes with a binary symbol restricted to sub-universes'},
+             'thorough': 'as quick plus 2 x {a/0,t/3} (a ternary symbol), 2 x {a/0,b/0,f/1,g/2} and 3-state universes with a binary symbol restricted to sub-universes'},
   'outside': 'more than 3 states, rank > 2, state numbers >= NS, automata sharing storage with other automata (see C11)',
   'harnesses': [
     {'name': 'trim', 'src': 'harness/C03/trim.cc', 'tus': TREE_CORE + ['explicit_tree_useless', 'explicit_tree_unreach'],
      'configs': {'quick': [U(2, [0, 1], OP=0), U(2, [0, 1], OP=1), U(2, [0, 1, 2], OP=0), U(2, [0, 1, 2], OP=1), U(3, [0, 1], OP=0), U(3, [0, 1], OP=1), U(2, [0, 0, 2], OP=0), U(2, [0, 0, 2], OP=1)],
-                 'thorough': [U(2, [0, 1], OP=0), U(2, [0, 1], OP=1), U(2, [0, 1, 2], OP=0), U(2, [0, 1, 2], OP=1), U(3, [0, 1], OP=0), U(3, [0, 1], OP=1), U(2, [0, 0, 1, 2], OP=0), U(2, [0, 0, 1, 2], OP=1), U(2, [0, 0, 2], OP=0), U(2, [0, 0, 2], OP=1)]},
+                 'thorough': [U(2, [0, 1], OP=0), U(2, [0, 1], OP=1), U(2, [0, 1, 2], OP=0), U(2, [0, 1, 2], OP=1), U(3, [0, 1], OP=0), U(3, [0, 1], OP=1), U(2, [0, 0, 1, 2], OP=0), U(2, [0, 0, 1, 2], OP=1), U(2, [0, 0, 2], OP=0), U(2, [0, 0, 2], OP=1), U(2, [0, 3], OP=0, _time=1500), U(2, [0, 3], OP=1, _time=1500)]},
      'selftest_config': U(2, [0, 1], OP=0), 'selftests': ['VS_SELFTEST_1']},
   ],
  },
